@@ -157,9 +157,15 @@ RkrNx(rom, s, e) ==
 IskOK(rom, s, e) ==
   /\ s.st = "Isk" /\ e.rd /\ e.ok                        \* ECDSA under the selected root key
   /\ e.at = s.cur /\ e.iskLen \in {64, 96}
-  /\ e.sigOff = 12 + e.iskLen + e.udLen /\ e.udLen % 4 = 0 /\ (e.udFlag <=> e.udLen > 0)
+  /\ e.sigOff = 12 + e.iskLen + e.udLen /\ e.udLen >= 0 /\ (e.udFlag <=> e.udLen > 0)
+  \* The user data are the bytes between the ISK public key and the place the signature-offset word names, EXACTLY AS THEY STAND
+  \* IN THE FILE: whatever their length (none / a multiple of 4 / 1, 2, 3 mod 4 - UdClass), the signature is made over every one of
+  \* them (e.to = e.sigAt) and over nothing else.  That the length be a multiple of 4 is a rule the TOOL imposes on its callers per
+  \* family (its data base); no offline source says that the ROM refuses other lengths, so the ROM model does not decide it: a
+  \* refusal of the tool is fine, an exported block has to satisfy this clause and every clause that follows.
   /\ e.sigAt = e.at + e.sigOff /\ e.sigLen = s.signer
   /\ e.frm = s.cb.at + V21HdrLen /\ e.to = e.sigAt       \* root key record || ISK header, key and user data
+UdClass(n) == IF n = 0 THEN "none" ELSE IF n % 4 = 0 THEN "aligned" ELSE IF n % 4 = 1 THEN "r1" ELSE IF n % 4 = 2 THEN "r2" ELSE "r3"
 IskNx(rom, s, e) == [s EXCEPT !.cur = e.sigAt + e.sigLen, !.signer = e.iskLen, !.st = "CbEnd"]
 
 CbEndOK(rom, s, e) == s.st = "CbEnd" /\ e.at = s.cur /\ e.size = s.cur - s.cb.at
